@@ -241,8 +241,10 @@ Step ==
          bad == LineClauses(prev, o, a, c, h0, tipsNow)
                   \cup (IF o.ev = "job_end" THEN JobEndClauses(o, a, c, h0) ELSE {})
          P == JobPr(o)
-         outsider == o.ev \in {"env", "third", "init"}
          endj == o.ev = "job_end"
+         \* an injected crash / refused ref / third party is a change outside Bert-E: the interrupted evaluation does not
+         \* count as one of the "same evaluation again" deliveries of C10
+         outsider == o.ev \in {"env", "third", "init"} \/ (endj /\ o.job.faulted)
          sameJob == h0.lastJob = <<o.job.kind, o.job.arg>>
          cls == OutcomeClass(o.job.status)
      IN /\ anc' = a
@@ -261,8 +263,8 @@ Step ==
                   rep       |-> IF outsider THEN 0
                                 ELSE IF endj THEN (IF sameJob THEN h0.rep + 1 ELSE 1)
                                 ELSE h0.rep,
-                  lastJob   |-> IF endj THEN <<o.job.kind, o.job.arg>>
-                                ELSE IF outsider THEN <<"", 0>> ELSE h0.lastJob,
+                  lastJob   |-> IF outsider THEN <<"", 0>>
+                                ELSE IF endj THEN <<o.job.kind, o.job.arg>> ELSE h0.lastJob,
                   outc      |-> IF endj /\ o.job.kind = "EvalPR" /\ P # {} /\ cls # "none"
                                 THEN LET key == <<(CHOOSE x \in P : TRUE).id, cls>>
                                      IN Upd(h0.outc, key, Get(h0.outc, key, 0) + 1)
